@@ -155,6 +155,7 @@ func runC12(p *load.Program, r *oblig.Report) {
 	c12VersionFlow(p, r)
 	c12SendRequest(p, r)
 	c12SortSearch(p, r)
+	c12Refresher(p, r)
 }
 
 // dispatchOrder returns the interfaces asserted on parameter `req` of sendRequest, in dominance order.
@@ -878,4 +879,68 @@ func noCells(os []an.Origin) []an.Origin {
 		}
 	}
 	return out
+}
+
+// c12Refresher: R7 — the metadata refresher only stops with its pool.
+func c12Refresher(p *load.Program, r *oblig.Report) {
+	const rule = "C12.R7 the metadata refresher stops only when the pool's context ends"
+	fn := p.Func("", "(*connPool).discover")
+	if fn == nil {
+		r.Lost(rule, "kafka.(*connPool).discover")
+		return
+	}
+	ctxParam := fn.Params[1]
+	n := 0
+	an.EachInstr(fn, func(ins ssa.Instruction) {
+		ret, ok := ins.(*ssa.Return)
+		if !ok {
+			return
+		}
+		n++
+		okExit := false
+		why := ""
+		for d, child := ret.Block().Idom(), ret.Block(); d != nil; d, child = d.Idom(), d {
+			iff, _ := an.IfCond(d)
+			if iff == nil {
+				continue
+			}
+			// (a) errors.Is(err, ctx.Err()) with ctx the function's own context parameter
+			for _, b := range []*ssa.BasicBlock{d} {
+				for _, i2 := range b.Instrs {
+					c2, isC := i2.(*ssa.Call)
+					if !isC || c2.Call.StaticCallee() == nil || c2.Call.StaticCallee().Name() != "Is" {
+						continue
+					}
+					if e, isE := c2.Call.Args[1].(*ssa.Call); isE && e.Call.IsInvoke() && e.Call.Method.Name() == "Err" && e.Call.Value == ssa.Value(ctxParam) {
+						if d.Succs[0] == child || d.Succs[0].Dominates(child) {
+							okExit, why = true, "errors.Is(err, ctx.Err()) on the pool context"
+						}
+					}
+				}
+			}
+			// (b) the arm of a select that received from ctx.Done()
+			if bo, isB := iff.Cond.(*ssa.BinOp); isB && bo.Op == token.EQL {
+				if ex, isEx := bo.X.(*ssa.Extract); isEx {
+					if sel, isSel := ex.Tuple.(*ssa.Select); isSel {
+						if k, isK := an.ConstInt(bo.Y); isK && int(k) < len(sel.States) {
+							cd := argDesc(sel.States[k].Chan)
+							if strings.Contains(cd, "(context.Context).Done") && (d.Succs[0] == child || d.Succs[0].Dominates(child)) {
+								// the channel must come from the parameter context
+								for _, o := range an.Origins(sel.States[k].Chan, an.FlowOpts{}) {
+									if c3, isC3 := o.Val.(*ssa.Call); isC3 && c3.Call.IsInvoke() && c3.Call.Value == ssa.Value(ctxParam) {
+										okExit, why = true, "case <-ctx.Done() of the pool context"
+									}
+								}
+							}
+						}
+					}
+				}
+			}
+		}
+		if len(ret.Block().Instrs) > 0 && ret.Block().Comment == "recover" {
+			return
+		}
+		r.Check(okExit, rule, fmt.Sprintf("connPool.discover → exit #%d", n), p.Pos(ret.Pos()), "return only on the pool context: errors.Is(err, ctx.Err()) or <-ctx.Done()", "an exit that does not depend on the pool context", why)
+	})
+	r.RequireCount(rule, n, 2)
 }
